@@ -20,13 +20,15 @@ Proved here
   lies below `:child_storage:default:`, every observable of the model over a correct trie equals
   the specification's, every transaction level has exactly the specification's logical content,
   and the outermost commit leaves exactly the specification's committed state (same entries, same
-  child tries, hence the same root for any root function).
+  child tries, hence the same root for any root function); `C08_commit_direct_partial`: it is the
+  state that applying the same operations without a transaction gives.
   Full statement that is NOT provable for the code as it is:
       ∀ ops, observables (model over the ideal trie) ops = observables spec ops.
   The `_counterexample` theorems show it fails outside the fragment, one per known finding.
 -/
 import Gossamer.Lib.C08SimStep
 import Gossamer.Lib.C08Reach
+import Gossamer.Lib.C08Transparent
 namespace Gossamer.C08
 open Gossamer
 
@@ -93,6 +95,21 @@ theorem C08_commit_outermost_partial (Hc Hm : Entries → Bytes) (D : Dumper Log
     rw [h.back]
   · show (Logical.view Hc t.base).map _ = _
     rw [h.back]
+
+/-- Committing the outermost transaction gives exactly the state (contents, child tries, hence
+    root) that applying the same operations directly, without a transaction, gives — after any
+    history `pre` of the fragment that ends with no transaction open. -/
+theorem C08_commit_direct_partial (Hc Hm : Entries → Bytes) (D : Dumper Logical) (CK : Bytes → Bool)
+    (pre xs : List Op) (hpre : ∀ op ∈ pre, OpOK CK op) (hxs : ∀ op ∈ xs, OpOK CK op)
+    (hplain : ∀ op ∈ xs, isTx op = false)
+    (hdepth : (runTS (idealBackend Hc Hm) D Diff.sortedOrder
+      { base := Logical.empty, txs := [] } pre).1.txs = []) :
+    (runTS (idealBackend Hc Hm) D Diff.sortedOrder { base := Logical.empty, txs := [] }
+        (pre ++ ([Op.start] ++ xs ++ [Op.commit]))).1 =
+      (runTS (idealBackend Hc Hm) D Diff.sortedOrder { base := Logical.empty, txs := [] }
+        (pre ++ xs)).1 := by
+  rw [runTS_append, runTS_append (l1 := pre)]
+  exact commit_direct Hc Hm D (sim_run Hc Hm D (sim_init CK) pre hpre).1 hdepth xs hxs hplain
 
 /-- the fragment is not empty: main and child keys kept apart by a first byte -/
 example : ∀ op ∈ [Op.put [1] (some [2]), Op.start, Op.cput [0x4b, 1] [1] (some [3]), Op.start,
